@@ -205,6 +205,24 @@ def generate(rng, tier):
         yield total(f'path.stroke {H(wf)} {rng.randint(0, 2)} {rng.randint(0, 2)} {H(4.0)} {H(rng.uniform(0, 2))} {len(patf)} {H(*patf)} {H(tolf)} M {H(*q[0])} {body}'.replace('  ', ' '), 'stroke-far-from-origin')
         yield total(f'path.flatten {H(tolf)} M {H(*q[0])} {body}', 'flatten-far-from-origin')
         yield total(f'path.simplify {H(tolf)} {rng.randint(0, 1)} M {H(*q[0])} {body}', 'simplify-far-from-origin')
+    # wide strokes (0.1 .. 0.5 of the extent) on cubics with a retracted handle at fine tolerance: the offset curve has its cusp at the end of the range
+    for _ in range(n):
+        ext = 10.0 ** rng.uniform(0, 4.3)
+        q = [(rng.uniform(-1, 1) * ext, rng.uniform(-1, 1) * ext) for _k in range(3)]
+        body = f'C {H(*q[1])} {H(*q[2])} {H(*q[2])}' if rng.random() < 0.5 else f'C {H(*q[0])} {H(*q[1])} {H(*q[2])}'
+        yield total(f'path.stroke {H(ext * rng.uniform(0.1, 0.5))} {rng.randint(0, 2)} {rng.randint(0, 2)} {H(4.0)} {H(0.0)} 0 {H(10.0 ** rng.uniform(-3, -1))} M {H(*q[0])} {body}', 'stroke-wide-retracted')
+    # gentle arcs ending in a retracted handle, stroked with a pen of 0.1 .. 0.6 of their extent at fine tolerance (any scale and orientation): the offset
+    # curve has a cusp exactly at the end of the parameter range, which the fitter's recursion must recognise
+    base = [(10000.0, -5000.0), (0.0, 5000.0), (-7500.0, 7500.0)]
+    for _ in range(2 * n):
+        sc_, th_ = 10.0 ** rng.uniform(-3, 0), rng.uniform(0, 2 * math.pi)
+        pts_ = [(x * (1 + rng.uniform(-0.3, 0.3)), y * (1 + rng.uniform(-0.3, 0.3))) for x, y in base]
+        pts_ = [(sc_ * (math.cos(th_) * x - math.sin(th_) * y), sc_ * (math.sin(th_) * x + math.cos(th_) * y)) for x, y in pts_]
+        if rng.random() < 0.5:
+            body = f'M {H(*pts_[0])} C {H(*pts_[1])} {H(*pts_[2])} {H(*pts_[2])}'
+        else:
+            body = f'M {H(*pts_[2])} C {H(*pts_[2])} {H(*pts_[1])} {H(*pts_[0])}'
+        yield total(f'path.stroke {H(5000 * sc_ * rng.uniform(0.3, 2.0))} {rng.randint(0, 2)} {rng.randint(0, 2)} {H(4.0)} {H(0.0)} 0 {H(10.0 ** rng.uniform(-4, -1))} {body}', 'stroke-wide-retracted-arc')
     # smooth paths through a closed-loop cubic (start point = end point) with G1 neighbours: the optimised fitter's error is not monotone there
     for _ in range(n):
         p0 = (rng.uniform(-5, 5), rng.uniform(-5, 5))
